@@ -71,6 +71,29 @@ def _match(vc, res, r, o1, l1, o2, l2, label, seen):
             vc.ensure(label + ".input_pair_units", _units(vc, r) == _units(vc, l1) * _units(vc, l2))
             vc.ensure(label + ".input_pair_scope", same_scope(vc, vc.attr(r, "scope"), vc.attr(l1, "scope")))
             vc.ensure(label + ".input_pair_has_no_inputs", len(got) == 0)
+            # WHICH two operand layers were multiplied: the result's references point at exactly their tensors ...
+            def tensors(l):
+                out = set()
+                for P in vc.attr(l, "params").values():
+                    ts, rs = S.tensor_leaves(vc, P)
+                    out.update(t.oid for t in ts)
+                    out.update(vc.call((x, "deref")).oid for x in rs)
+                return out
+            if isinstance(r, Obj):
+                refs = set()
+                for P in vc.attr(r, "params").values():
+                    refs.update(vc.call((x, "deref")).oid for x in S.tensor_leaves(vc, P)[1])
+                vc.ensure(label + ".input_pair_references_exactly_these_two_layers", refs == tensors(l1) | tensors(l2))
+                # ... in the order (first operand major)
+                if r.cls.name == "EmbeddingLayer" and l1.cls.name == "EmbeddingLayer":
+                    env = {}
+                    W = S.den_param(vc, vc.attr(r, "weight"), env)
+                    W1, W2 = S.den_param(vc, vc.attr(l1, "weight"), env), S.den_param(vc, vc.attr(l2, "weight"), env)
+                    K1_, K2_, C_ = _units(vc, l1), _units(vc, l2), vc.attr(l1, "num_states")
+                    if len(W.shape) == 2:
+                        from engine.tensor import MR
+                        a, b, x = vc.index_consts([K1_, K2_, C_], "u" + str(len(seen)))
+                        vc.ensure(label + ".input_pair_first_operand_major", W.elem([MR([(a, K1_), (b, K2_)]), x]) == W1.elem([a, x]) * W2.elem([b, x]))
         else:
             ok = isinstance(r, Obj) and r.cls.name == "KroneckerLayer" and len(got) == 2
             vc.ensure(label + ".disjoint_pair_is_binary_kronecker", ok)
